@@ -142,6 +142,10 @@ class Runner:
         self.file_opts = file_opts or {}
         self.log = []            # executed steps with results
         self.wrote = {}          # session -> set of line texts it reported writing (C03)
+        self.commit_ok = []      # per commit step: did git create a commit?
+        self.was_last = {}       # path -> uids that were, at some point, the last line of a file kept
+                                 # without a final newline (their line ending changes when lines are
+                                 # added or removed below them)
 
     def opts(self, path):
         return self.file_opts.get(path, {})
@@ -155,6 +159,8 @@ class Runner:
             old = {l[2]: l for l in self.ghost.get(path, [])}
             self.ghost[path] = [list(l) for l in st["lines"]]
             o = self.opts(path)
+            if st["lines"] and not o.get("final_newline", True):
+                self.was_last.setdefault(path, set()).add(st["lines"][-1][2])
             r.write(path, content_of(st["lines"], o.get("final_newline", True), o.get("crlf", False)))
             if who != "human":
                 w = self.wrote.setdefault(who, set())
@@ -196,6 +202,7 @@ class Runner:
                 self.index = {p: [list(l) for l in ls] for p, ls in self.ghost.items()}
             rc, out, err = r.git("commit", "-q", "-m", st.get("msg", "c"), *st.get("extra", []))
             res = (rc, out, err)
+            self.commit_ok.append(rc == 0)
             if rc == 0:
                 sha = r.head()
                 self.commits.append((sha, {p: [list(l) for l in ls] for p, ls in self.index.items()}))
@@ -285,7 +292,7 @@ def norm_text(t):
     return "".join(t.split())
 
 
-def sys_requests(sc, sessions_index=None):
+def sys_requests(sc, sessions_index=None, commit_ok=None):
     """Translate a scenario (explicit steps) into one `sys_run` request per file for the Lean Sys
     model (Model/Sys.lean). Line ids are indices of distinct whitespace-normalised texts; sessions
     are numbered. Returns {path: request} and the session numbering."""
@@ -306,6 +313,7 @@ def sys_requests(sc, sessions_index=None):
     files = {}        # path -> {"head": [...], "ops": [...], "started": bool}
     base_done = False
     order = []
+    ncommit = 0       # index into commit_ok (which commit steps really produced a commit)
     for st in sc["steps"]:
         op = st["op"]
         if op == "edit":
@@ -335,10 +343,18 @@ def sys_requests(sc, sessions_index=None):
             p = st["path"]
             files.setdefault(p, {"head": [], "ops": []})["ops"].append({"k": "stage", "ys": [lid(l[0]) for l in st["lines"]]})
         elif op == "commit":
+            ok = commit_ok[ncommit] if commit_ok is not None and ncommit < len(commit_ok) else True
+            ncommit += 1
             if not base_done:
                 base_done = True
                 continue
             mode = st.get("add", "paths" if st.get("paths") else "all")
+            if not ok:
+                # `git commit` refused (nothing to commit): staging happened, no commit was made
+                for p, f in files.items():
+                    if mode == "all" or (mode == "paths" and p in st["paths"]):
+                        f["ops"].append({"k": "stageAll"})
+                continue
             for p, f in files.items():
                 if mode == "all" or (mode == "paths" and p in st["paths"]):
                     f["ops"].append({"k": "stageAll"})
@@ -347,10 +363,10 @@ def sys_requests(sc, sessions_index=None):
     return reqs, sess
 
 
-def sys_compare(sc, commits_observed, run_driver, skip_paths=()):
+def sys_compare(sc, commits_observed, run_driver, skip_paths=(), commit_ok=None):
     """commits_observed: list (one per non-base commit, in order) of {path: {line: hash}}.
     Returns (n_compared, disagreements)."""
-    reqs, sess = sys_requests(sc)
+    reqs, sess = sys_requests(sc, commit_ok=commit_ok)
     inv = {v: hash_of(k) for k, v in sess.items()}
     paths = sorted(p for p in reqs if p not in skip_paths)
     if not paths:
